@@ -275,6 +275,12 @@ def families(tier, seed):
     # relational indicators inside arithmetic (as the shipped examples do)
     out.append(("indicators/sum", ("bin", "+", ("call", "eq", [a, L(1)]), ("call", "eq", [b, L(1)])), {}))
     out.append(("indicators/difference", ("bin", "-", ("call", "ge", [a, b]), ("call", "le", [a, c])), {}))
+    # every relational function as a 0/1 number: sums, differences, negation and remainder of two indicators of the same function
+    for rel in ("eq", "neq", "lt", "le", "gt", "ge"):
+        i1, i2 = ("call", rel, [a, b]), ("call", rel, [a, c])
+        out.append((f"indicators/{rel}/sum", ("bin", "+", i1, i2), {}))
+        out.append((f"indicators/{rel}/difference", ("bin", "-", i1, i2), {}))
+        out.append((f"indicators/{rel}/sum-arrays", ("bin", "+", ("bin", "+", i1, i2), ("call", rel, [b, c])), {"arrays": True}))
     out.append(("indicators/product-arrays", ("bin", "*", ("call", "neq", [a, b]), ("bin", "+", ("call", "lt", [a, L(0.5)]), ("call", "gt", [b, a]))), {"arrays": True}))
     # variable resolution: engine input X, output O, own variable a, and x
     out.append(("variables/engine", ("bin", "+", ("bin", "*", V("X"), L(2)), ("bin", "-", ("bin", "/", V("O"), V("a")), V("x"))), {"engine_vars": True}))
